@@ -932,8 +932,37 @@ func (e *CEnv) eval(x ast.Expr) (Value, types.Type) {
 			return v, t
 		}
 		e.fail("unsupported unary %s", n.Op)
+	case *ast.TypeAssertExpr:
+		// x.(T) in a specification: the dynamic value of x read at type T (concrete
+		// types only; no obligation — where the dynamic type is another one the value
+		// is unconstrained).
+		xv, _ := e.eval(n.X)
+		iv, ok := xv.(IfaceV)
+		if !ok || n.Type == nil {
+			e.fail("type assertion needs an interface value and a type")
+		}
+		tv, _ := e.eval(n.Type)
+		tt, ok := tv.(typeV)
+		if !ok {
+			e.fail("type assertion needs a type")
+		}
+		if _, isIface := tt.T.Underlying().(*types.Interface); isIface {
+			e.fail("type assertion to an interface type is not supported in contracts")
+		}
+		if iv.Dyn != nil && iv.DynT != nil && types.Identical(iv.DynT, tt.T) {
+			return iv.Dyn, tt.T
+		}
+		at := tt.T
+		res := build(at, func(l leafSpec) *Term {
+			fn := B.DeclareFun("payload."+typeKey(at)+l.Path, []string{SRef}, l.Sort)
+			return B.App(fn, l.Sort, iv.Ref)
+		})
+		return res, at
 	case *ast.StarExpr:
 		v, t := e.eval(n.X)
+		if tv, ok := v.(typeV); ok {
+			return typeV{types.NewPointer(tv.T)}, nil
+		}
 		pt, ok := t.Underlying().(*types.Pointer)
 		if !ok {
 			e.fail("dereference of non-pointer")
